@@ -47,6 +47,7 @@ prop("C01", "c01",
      "cases = generated registration sequences (profiles sparse-wide/dense/funnel/mixed/batchy/dep-fans/tiny; dyn+static systems, deps, hints, barriers, batches <=3 deep) built into a real dispatcher; "
      "every plan goes through the layout oracle, every 6th is executed 2-3 times on a pool of 1/2/3/4/8/16 threads via dispatch/dispatch_par/dispatch_seq/async under jitter, forced overlap or a scripted interleaving and judged by the event-log oracle. "
      "Executed plans also contain: RunNow::run_now as entry point, async rounds with two back-to-back dispatch requests and a peek (running / world / wait_without_tl) before wait, a system that panics in the first dispatch (caught; ordering and isolation are judged on what ran), registration attempts that fail and are caught between the registrations, and systems with 9..14 writes. "
+     "Four times per shard: writers and readers of five distinct resource types that all carry the same type name (block-local types) are dispatched 300 times on a 4-thread pool (no borrow-conflict panic may escape). "
      "A case is counted as distinct non-trivial by (layout hash, pool size, first event-order hash) when the plan has >=1 conflicting pair, the layout has a stage with >=2 groups and >=1 overlap of unordered systems was actually observed in the log.",
      thorough=[shards(name="main"), san("tsan", name="tsan", scale=0.25), miri(rayon=True, name="miri", args=["--tiny"], scale=0.0002)])
 
